@@ -169,7 +169,7 @@ def finish(ctx: Ctx) -> int:
     for v in fresh:
         seen_keys.setdefault(v.key, []).append(v)
     n_print = 0
-    for i, (key, vs) in enumerate(sorted(seen_keys.items(), key=lambda kv: kv[0])):
+    for i, (key, vs) in enumerate(seen_keys.items()):  # discovery order = simplest first
         path = os.path.join(outdir, f"{i:04d}.json")
         rec = vs[0].to_json()
         rec["property"] = ctx.prop
